@@ -166,7 +166,7 @@ def rand_hc_config(rng, cols):
 
 def gen_hc(tier, seed):
     rng = O.mk_rng(seed, "c11-hc")
-    for i in range(96 if tier == "quick" else 900):
+    for i in range(160 if tier == "quick" else 900):
         n = rng.choice((2, 3, 3, 4, 4, 4) if tier == "quick" else (2, 3, 3, 4, 4, 4, 5, 5))
         case = rand_data(rng, n)
         case["configs"] = [rand_hc_config(rng, case["columns"]) for _ in range(6)]
@@ -253,7 +253,7 @@ def check_hc(case):
 # ----------------------------------------------------------------------------- exhaustive search
 def gen_ex(tier, seed):
     rng = O.mk_rng(seed, "c11-ex")
-    for i in range(40 if tier == "quick" else 240):
+    for i in range(56 if tier == "quick" else 240):
         n = rng.choice((2, 3, 3, 4))
         case = rand_data(rng, n)
         case["scoring"] = rng.choice(("default", "inst:k2", "inst:bdeu:5", "inst:bdeu:10", "inst:bic", "inst:aic", "inst:bds:10"))
@@ -386,7 +386,7 @@ def check_arborescence(keyp, tag, nodes, root, edges, w):
 
 def gen_tree(tier, seed):
     rng = O.mk_rng(seed, "c11-tree")
-    for i in range(48 if tier == "quick" else 400):
+    for i in range(64 if tier == "quick" else 400):
         n = rng.choice((3, 3, 4, 4, 5))
         yield rand_data(rng, n, strong=rng.random() < 0.8)
 
